@@ -730,6 +730,31 @@ def mode_switch(ctx, mod, rule):
               ctx.where(mod, st))
 
 
+def rule_OW8_shared_survey(ctx, mod, E):
+    """A simulation keeps everything it derives (synthetic data, residual,
+    weights) in `survey.data` of the survey OBJECT it was given: two
+    simulations built on one survey overwrite each other's residual, and the
+    lazy gradient of the first then back-propagates the residual of the
+    second.  Independence needs either a private copy of the survey or
+    derived items stored on the simulation."""
+    init = E.members['__init__']
+    spar = au.params(init)[1]
+    by_ref = has(f'self.survey = {spar}', init)
+    dprop = [m for m in mod.methods('Simulation', 'data')
+             if 'property' in au.decorator_names(m)]
+    alias = bool(dprop) and has('return self.survey.data', dprop[0])
+    derived = any(isinstance(st, ast.Assign) and any(
+        ast.unparse(t).replace('"', "'") == "self.data['residual']"
+        for t in st.targets) for st in ast.walk(mod.cls('Simulation')))
+    ctx.check('C12.OW8.survey', 'Simulation owns the data it derives',
+              not (by_ref and alias and derived),
+              'the survey is kept by reference and residual / weights / '
+              'synthetic data are written into its Dataset: a second '
+              'simulation on the same survey object replaces them, and the '
+              'cached misfit of the first no longer matches the residual its '
+              'gradient uses', ctx.where(mod, init))
+
+
 def rule_OW7(ctx, mod, E):
     """Two data variables must never share memory: a store
     `data[a] = data[b]` (no copy) makes later in-place `.loc[...] =` writes of
@@ -786,6 +811,7 @@ def run(ctx):
     rule_OW6_serial(ctx, mod, E)
     rule_OW7(ctx, mod, E)
     rule_OW5_files(ctx, mod, E)
+    rule_OW8_shared_survey(ctx, mod, E)
     mode_switch(ctx, mod, 'C12.OW3.mode')
     # the transient hand-over attribute of to_file is consumed by to_dict
     # (a leftover makes every later copy()/to_dict(what) use the old `what`)
